@@ -16,7 +16,7 @@ import (
 func init() { register("C11", genC11) }
 
 // runRandomL1 runs n random histories and returns their Coq texts.
-func runRandomL1(rep *Report, seed uint64, firstID, n, length int, w L1Weights, setup func(sc *L1Scenario), mons []L1Monitor, kindsOfInterest []string) []string {
+func runRandomL1(rep *Report, tt *termTable, seed uint64, firstID, n, length int, w L1Weights, setup func(sc *L1Scenario), mons []L1Monitor, kindsOfInterest []string) []string {
 	var texts []string
 	for k := 0; k < n; k++ {
 		c := RunL1Twice(seed*100000+uint64(k), firstID+k, func(sc *L1Scenario) {
@@ -54,7 +54,7 @@ func runRandomL1(rep *Report, seed uint64, firstID, n, length int, w L1Weights, 
 			}
 			rep.Sample(map[string]interface{}{"kind": "random L1 history (first ops)", "ops": l1OpsHuman(c.Ops[:m])})
 		}
-		texts = append(texts, c.Coq())
+		texts = append(texts, l1CaseText(c, tt))
 	}
 	return texts
 }
@@ -123,7 +123,7 @@ func c11Alphabet() []c11Sym {
 	}
 }
 
-func genC11Exhaustive(rep *Report, seed uint64, firstID int, alphabet []c11Sym, depth int) []string {
+func genC11Exhaustive(rep *Report, tt *termTable, seed uint64, firstID int, alphabet []c11Sym, depth int) []string {
 	sc := NewL1Scenario(seed, 0, nil)
 	e := sc.Env
 	base := sc.Case
@@ -168,7 +168,7 @@ func genC11Exhaustive(rep *Report, seed uint64, firstID int, alphabet []c11Sym, 
 			if total == 1 || strings.Join(words, " ") == "p1 p1+1s d1@2+1s" {
 				rep.Sample(map[string]interface{}{"kind": "exhaustive script " + strings.Join(words, " "), "ops": l1OpsHuman(ops)})
 			}
-			texts = append(texts, c.Coq())
+			texts = append(texts, l1CaseText(c, tt))
 			return
 		}
 		nodeCtx, now, height := e.Ctx, sc.Now, sc.Height
@@ -206,18 +206,20 @@ func genC11(seed uint64, tier, outdir string) *Report {
 	nA, nB, length, depth := 24, 24, 60, 3
 	alphabet := c11Alphabet()
 	if tier == "thorough" {
-		nA, nB, length, depth = 400, 400, 120, 4
+		nA, nB, length, depth = 300, 300, 120, 4
 	}
 	mons := []L1Monitor{logMonitor("C11")}
 	interest := []string{"propose", "delete"}
-	texts := runRandomL1(rep, seed, 1, nA, length, w, nil, mons, interest)
-	texts = append(texts, runRandomL1(rep, seed+7777, 1+nA, nB, length, w2, twoBridgeSetup(2*sec, 5*sec), mons, interest)...)
-	texts = append(texts, genC11Exhaustive(rep, seed, 1+nA+nB, alphabet, depth)...)
+	tt := newTermTable()
+	// exhaustive scripts first: their (short) histories are the first to be reported
+	texts := genC11Exhaustive(rep, tt, seed, 1, alphabet, depth)
 	if tier == "thorough" {
 		// deeper, over the core alphabet (no redundant rejections)
 		core := []c11Sym{alphabet[0], alphabet[1], alphabet[2], alphabet[5], alphabet[6], alphabet[7]}
-		texts = append(texts, genC11Exhaustive(rep, seed, 1+len(texts), core, 6)...)
+		texts = append(texts, genC11Exhaustive(rep, tt, seed, 1+len(texts), core, 5)...)
 	}
-	writeShards(outdir, "C11", l1CaseHeader, "run_l1case", "l1case", texts, 16, rep)
+	texts = append(texts, runRandomL1(rep, tt, seed, 1+len(texts), nA, length, w, nil, mons, interest)...)
+	texts = append(texts, runRandomL1(rep, tt, seed+7777, 1+len(texts), nB, length, w2, twoBridgeSetup(2*sec, 5*sec), mons, interest)...)
+	writeShardsTerms(outdir, "C11", l1CaseHeader, "run_l1case", "l1case", texts, 16, rep, tt)
 	return rep
 }
